@@ -104,10 +104,41 @@ fn replay(args: &[String]) -> i32 {
     let notes: Arc<Mutex<BTreeMap<String, u64>>> = Arc::new(Mutex::new(BTreeMap::new()));
     // silence panic messages from catch_unwind'ed aborts
     std::panic::set_hook(Box::new(|_| {}));
+    // watchdog: a call that does not return is an outcome too (non-termination / unbounded work on one input):
+    // per worker, the item in flight and the instant it started
+    let hang_limit: u64 = arg(args, "--hang-limit").unwrap_or("240").parse().unwrap();
+    let t0 = std::time::Instant::now();
+    let flight: Arc<Vec<(AtomicUsize, std::sync::atomic::AtomicU64)>> = Arc::new((0..threads).map(|_| (AtomicUsize::new(usize::MAX), std::sync::atomic::AtomicU64::new(0))).collect());
+    {
+        let (flight, items, vectors, fails, out_path) = (flight.clone(), items.clone(), vectors.clone(), fails.clone(), out_path.to_string());
+        let (groups, profiles) = (groups.clone(), profiles.clone());
+        std::thread::spawn(move || loop {
+            std::thread::sleep(std::time::Duration::from_millis(500));
+            let now = t0.elapsed().as_secs();
+            for (ix, started) in flight.iter() {
+                let i = ix.load(Ordering::Relaxed);
+                let st = started.load(Ordering::Relaxed);
+                if i != usize::MAX && now > st + hang_limit {
+                    let (vi, g, p) = &items[i];
+                    let mut f = fails.lock().map(|f| f.clone()).unwrap_or_default();
+                    f.insert(0, json!({"vector": vectors[*vi], "group": g, "atom_len": p, "seed": seed, "observed": {"hang": true},
+                                       "why": format!("call did not return within {hang_limit} s (non-termination or unbounded work on one input)")}));
+                    let summary = json!({"vectors": vectors.len(), "executions": i, "derived_executions": 0, "failed": f.len(), "groups": groups, "profiles": profiles,
+                                         "seed": seed, "per_act": {}, "notes": {"hang": 1}, "failures": f});
+                    if let Ok(mut out) = std::fs::File::create(&out_path) {
+                        let _ = writeln!(out, "{}", serde_json::to_string_pretty(&summary).unwrap());
+                    }
+                    println!("replay: a call did not return within {hang_limit} s");
+                    std::process::exit(1);
+                }
+            }
+        });
+    }
     let mut hs = vec![];
-    for _ in 0..threads {
+    for w in 0..threads {
         let (vectors, items, next, fails, stats, notes, tables, buckets) =
             (vectors.clone(), items.clone(), next.clone(), fails.clone(), stats.clone(), notes.clone(), tables.clone(), buckets.clone());
+        let flight = flight.clone();
         hs.push(std::thread::Builder::new().stack_size(64 << 20).spawn(move || {
             let mut local: BTreeMap<String, [u64; 4]> = BTreeMap::new();
             let mut lnotes: BTreeMap<String, u64> = BTreeMap::new();
@@ -119,7 +150,10 @@ fn replay(args: &[String]) -> i32 {
                 let (vi, g, p) = &items[ix];
                 let v = &vectors[*vi];
                 let conc = Conc { atom_len: *p, seed };
+                flight[w].1.store(t0.elapsed().as_secs(), Ordering::Relaxed);
+                flight[w].0.store(ix, Ordering::Relaxed);
                 let o = run_vector(v, g, &conc, &tables);
+                flight[w].0.store(usize::MAX, Ordering::Relaxed);
                 let act = v["act"].as_str().unwrap_or("?").to_string();
                 let e = local.entry(act).or_insert([0; 4]);
                 e[0] += 1;
@@ -236,6 +270,22 @@ fn record_cmd(args: &[String]) -> i32 {
     let events: usize = arg(args, "--events").unwrap_or("500").parse().unwrap();
     let mix = arg(args, "--mix").unwrap_or("all");
     let groups: Vec<String> = arg(args, "--groups").unwrap_or("G1,G2").split(',').map(|s| s.to_string()).collect();
+    // a call that never returns: the watchdog writes the input in flight as a `Hang` event (no action of any trace
+    // specification matches it, so the trace is rejected at that line) and ends the recording
+    {
+        let out_path = out_path.to_string();
+        let limit: u64 = arg(args, "--hang-limit").unwrap_or("240").parse().unwrap();
+        std::thread::spawn(move || loop {
+            std::thread::sleep(std::time::Duration::from_millis(500));
+            if let Some(d) = conc::watch::stuck(limit) {
+                if let Ok(mut out) = std::fs::File::create(&out_path) {
+                    let _ = writeln!(out, "{}", json!({"ev": "Hang", "seq": 1, "input": d, "limit_s": limit}));
+                }
+                println!("record: a call did not return within {limit} s: {}", &d[..d.len().min(200)]);
+                std::process::exit(0);
+            }
+        });
+    }
     let mut all = vec![];
     for g in &groups {
         let mut log = record::Log::new(g);
